@@ -8,6 +8,7 @@ Open Scope Z_scope.
 Definition obs_eqb (a b : obs) : bool :=
   match a, b with
   | OSetEpoch x, OSetEpoch y => x =? y
+  | OIterStart x, OIterStart y => x =? y
   | OYield f i, OYield g j => Bool.eqb f g && (i =? j)
   | OSideSetEpoch c x, OSideSetEpoch d y => Nat.eqb c d && (x =? y)
   | _, _ => false
@@ -20,6 +21,16 @@ Fixpoint list_eqb {A} (eq : A -> A -> bool) (a b : list A) : bool :=
   | _, _ => false
   end.
 
+Definition optz_eqb (a b : option Z) : bool :=
+  match a, b with Some x, Some y => x =? y | None, None => true | _, _ => false end.
+
+Fixpoint obs_held (l : list obs) : list (option Z) :=
+  match l with
+  | [] => []
+  | OIterStart x :: l' => Some x :: obs_held l'
+  | _ :: l' => obs_held l'
+  end.
+
 Definition iters_fun (emin : Z) (iters : list (list Z)) : Z -> list Z :=
   fun e => nth (Z.to_nat (e - emin)) iters [].
 
@@ -30,13 +41,15 @@ Definition passes_fun (l : list (list Z)) : nat -> list Z := fun k => nth k l []
    constructor arguments; budgets assigned to the attributes AFTER construction
    (None = untouched; exercises the loop's three-way end test with several
    budgets, which the constructor itself refuses); iteration counts of the side
-   samplers before the run; result class (0 ok, 1 NotImplementedError,
+   samplers before the run; the epoch the main sampler object holds before the
+   run (None = none; objects have histories: earlier iterations of this or
+   another InterleavedSampler, foreign set_epoch calls); result class (0 ok, 1 NotImplementedError,
    2 AssertionError); first epoch and the main sampler's iterations from there;
    the observed stream; list(batch_sampler); (index, dataset, sample) resolved
    through sampler.dataset; sampler.index_offsets; batches delivered by
    get_data_loader as (collator tag, samples) *)
 Definition case_t : Type :=
-  ctor_args * option (option Z * option Z * option Z) * list nat * nat * Z * list (list Z) * list obs
+  ctor_args * option (option Z * option Z * option Z) * list nat * option Z * nat * Z * list (list Z) * list obs
   * option (list (list Z)) * list (Z * nat * Z) * option (list Z) * option (list (nat * list Z)).
 
 Definition set_budgets (c : cfg) (b : option Z * option Z * option Z) : cfg :=
@@ -54,7 +67,7 @@ Definition arg_start (a : ctor_args) : option start_arg :=
   end.
 
 Definition main_obs (c : cfg) (l : list obs) : list obs :=
-  filter (fun o => match o with OSetEpoch _ => true | OYield _ i => i <? dsN c | OSideSetEpoch _ _ => true end) l.
+  filter (fun o => match o with OSetEpoch _ => true | OIterStart _ => true | OYield _ i => i <? dsN c | OSideSetEpoch _ _ => true end) l.
 
 Definition tagged_eqb (a b : nat * list Z) : bool := Nat.eqb (fst a) (fst b) && list_eqb Z.eqb (snd a) (snd b).
 
@@ -62,7 +75,7 @@ Definition tagged_eqb (a b : nat * list Z) : bool := Nat.eqb (fst a) (fst b) && 
    implementation; 2 = model agrees but the spec differs.
    mode 4: compare only the main projection (C04); other modes: the whole stream *)
 Definition check_mode (mode : nat) (t : case_t) : nat :=
-  let '(a, ovr, pcs0, result, emin, iters, o, bat, resolve, offs, lb) := t in
+  let '(a, ovr, pcs0, held0, result, emin, iters, o, bat, resolve, offs, lb) := t in
   let mi := iters_fun emin iters in
   let fuel := S (length iters) in
   match ctor a with
@@ -71,7 +84,7 @@ Definition check_mode (mode : nat) (t : case_t) : nat :=
   | Ok c0 e u s =>
       let c := match ovr with Some b => set_budgets c0 b | None => c0 end in
       if negb (Nat.eqb result 0) then 1%nat else
-      match sampler_iter c mi e u s pcs0 with
+      match iterate c mi e u s {| w_held := held0; w_pcs := pcs0 |} with
       | None => 1%nat
       | Some tr =>
           let r := render tr in
@@ -90,7 +103,10 @@ Definition check_mode (mode : nat) (t : case_t) : nat :=
                                    | None => false end
                        | None => true end in
           let proj := if Nat.eqb mode 4 then main_obs c else (fun l => l) in
-          if negb (list_eqb obs_eqb (proj r) (proj o) && offs_ok
+          (* what the real main sampler object held at each call of its __iter__ = what the model's
+             object holds there, started from the same previously held epoch *)
+          let held_ok := list_eqb optz_eqb (held held0 tr) (obs_held o) in
+          if negb (list_eqb obs_eqb (proj r) (proj o) && offs_ok && held_ok
                    && (Nat.eqb mode 4 || (bat_ok && res_ok && lb_ok))) then 1%nat else
           match arg_start a with
           | None => 2%nat
